@@ -49,8 +49,9 @@ TReset ==
 
 \* login: a new token family; whether a session results, and what the cookie starts with
 LoginViolated(r, okg) ==
-   { n \in {"C04_LoginLifetime", "C04_LoginValid", "C04_LoginRefresh", "C05_LoginNoGrace"} :
-       r.ok /\ CASE n = "C04_LoginLifetime" -> r.ck.life # LifeTTL
+   { n \in {"C01_E2E_LoginNeedsARule", "C04_LoginLifetime", "C04_LoginValid", "C04_LoginRefresh", "C05_LoginNoGrace"} :
+       r.ok /\ CASE n = "C01_E2E_LoginNeedsARule" -> ~okg   \* a session although no allow rule of this upstream holds
+                 [] n = "C04_LoginLifetime" -> r.ck.life # LifeTTL
                  [] n = "C04_LoginValid" -> r.ck.val > ValidTTL
                  [] n = "C04_LoginRefresh" -> r.ck.ref > TokTTL
                  [] n = "C05_LoginNoGrace" -> r.ck.grace # NoGrace }
